@@ -1742,11 +1742,23 @@ def _unparenthesize_grouping(self: fst.FST, shared: bool | None = True, *, star_
     else:  # in all other case we need to make sure par is not separating us from an alphanumeric on either side, and if so then just replace that par with a space
         if pend_col >= 2 and _re_par_close_alnums.match(l := lines[pend_ln], pend_col - 2):
             lines[pend_ln] = bistr(l[:pend_col - 1] + ' ' + l[pend_col:])
+
+            if parent := self.parent:  # parents which ended at the closing par now end where we end
+                parent._set_end_pos(end_ln + 1, lines[end_ln].c2b(end_col), pend_ln + 1, lines[pend_ln].c2b(pend_col))
+
+            self._touch()
+
         else:
             self._put_src(None, end_ln, end_col, pend_ln, pend_col, True, self)
 
         if pcol and _re_par_open_alnums.match(l := lines[pln], pcol - 1):
             lines[pln] = bistr(l[:pcol] + ' ' + l[pcol + 1:])
+
+            if parent := self.parent:  # parents which started at the opening par now start where we start
+                parent._set_start_pos(ln + 1, lines[ln].c2b(col), pln + 1, lines[pln].c2b(pcol))
+
+            self._touch()
+
         else:
             self._put_src(None, pln, pcol, ln, col, False)
 
